@@ -39,7 +39,7 @@ ASSUME_COMMON = [
 ]
 
 
-QUICK_TRIVIA = ["ws2", "cmn", "both", "bothn1", "cm", "cmb", "bothb"]
+QUICK_TRIVIA = ["ws2", "cmn", "both", "bothn1", "cm", "cmb", "bothb", "cmstack", "bothstack", "wsn"]
 
 
 def ref_ok(member) -> bool:
@@ -49,7 +49,7 @@ def ref_ok(member) -> bool:
 
 def select_members(prop: str, tier: str, seed: int):
     if tier == "quick":
-        # Quick: every (context, kind) pair without trivia, plus two of the seven trivia configurations per
+        # Quick: every (context, kind) pair without trivia, plus two of ten trivia configurations per
         # pair, rotated so that every (kind, configuration) and every (context, configuration) pair occurs
         # several times (a pairwise covering of context x kind x trivia).  Thorough: the full product.
         rot = QUICK_TRIVIA
